@@ -56,6 +56,12 @@ def Frag.bytes {o : Opt} (q : Quoter o) : Frag → Bytes
   | .emptyObj => [0x7b, 0x7d]
   | .emptyArr => [0x5b, 0x5d]
 
+/-- `{}` and `[]` open (and close) one container level. -/
+def Frag.depth : Frag → Nat
+  | .emptyObj => 1
+  | .emptyArr => 1
+  | _ => 0
+
 /-- x₁ `,` x₂ `,` … xₙ -/
 def joinElems : List Bytes → Bytes
   | [] => []
@@ -93,7 +99,7 @@ end
 mutual
 /-- nesting depth: atoms 0, a container one more than its deepest child -/
 def OutTree.depth : OutTree → Nat
-  | .atom _ => 0
+  | .atom f => f.depth
   | .arr ts => depthList ts + 1
   | .obj ms => depthMembers ms + 1
 def depthList : List OutTree → Nat
